@@ -6,8 +6,12 @@ import c12text
 
 THEOREMS = ["C04_binary", "C04_binary_writer", "C04_binary_spec", "C04_binary_nan", "C04_binary_int64", "tw_tdecode_universe", "tw_tdecode_batches", "C01bin", "C01bin_default", "C01bin_local_table", "C01bin_reads_table", "C01bin_ex_local", "C01bin_S3", "C01bin_S2", "C01bin_S1", "C01bin_system_stream", "C01bin_value", "C01bin_system_table", "C01bin_ex_run",
             "C01text_write_then_read", "C01text_writer_output", "C01text_stream_spells", "C01text_value_spells", "C01text_float_zero",
-            "C01text_ex_wf", "C01text_ex_roundtrip"]
-EXTRA_MODULES = ["C01text"]
+            "C01text_ex_wf", "C01text_ex_roundtrip",
+            "C01text_write_then_read_std", "C01text_write_then_read_pretty", "C01text_write_then_read_pretty_std",
+            "C01text_ts_fmt_ok", "C01text_ts_body", "C01text_ts_read_body", "C01text_dec_fmt_ok", "C01text_dec_go_literal",
+            "C01text_wf_std", "C01text_writer_output_pretty", "C01text_stream_spells_pretty", "C01text_value_spells_pretty",
+            "C01text_std_reads_decimal", "C01text_std_reads_timestamp", "C01text2_ex_wf", "C01text2_ex_roundtrip_pretty"]
+EXTRA_MODULES = ["C01text", "C01text2"]
 LEVEL = "other"
 EXPLANATION = ("value forests (boundary magnitudes, payload lengths 13/14/127/128/16383/16384, reserved-looking symbol text, "
                "deep nesting, every type under annotations and field names) are written by the real binary Writer and read "
